@@ -522,24 +522,29 @@ def pinChain : Nat → Syms → Option Nat → Option Syms
     | some s => pinChain fuel (pin syms t) s.link
 
 /-- the step of visitStmts over the block-level function declarations of a statement list (`evalFlag` =
-p.currentScope.ContainsDirectEval): when the function's name is pinned the hoisted variable is merged back -/
+p.currentScope.ContainsDirectEval): when the function's name or the hoisted variable's name must be kept, the rewrite into
+`let f2 = function(){}; var f = f2` is given up: the function keeps its name and the hoisted variable is merged back -/
 def relinkFns (evalFlag : Bool) : List Nat → VSt → Option VSt
   | [], st => some st
   | r :: rest, st =>
     match st.syms[r]? with
     | none => none
     | some sym =>
-      if evalFlag || sym.pinned then
-        match lookup r st.hmap with
-        | none => relinkFns evalFlag rest st
-        | some h =>
-          match st.syms[h]? with
-          | none => none
-          | some hs =>
-            match pinChain (st.syms.length + 1) st.syms hs.link with
+      match lookup r st.hmap with
+      | none => relinkFns evalFlag rest st
+      | some h =>
+        match st.syms[h]? with
+        | none => none
+        | some hs =>
+          -- "give up": direct eval, the function must keep its name, or the hoisted variable must keep its name (its
+          -- hoisting went past a `with` statement or reached the implicit `arguments`)
+          if evalFlag || sym.pinned || hs.pinned then
+            -- `p.symbols[s.Fn.Name.Ref].Flags |= MustNotBeRenamed`
+            let syms0 := pin st.syms r
+            match pinChain (syms0.length + 1) syms0 hs.link with
             | none => none
             | some syms1 => relinkFns evalFlag rest { st with syms := setLink syms1 h (some r) }
-      else relinkFns evalFlag rest st
+          else relinkFns evalFlag rest st
 
 /-- popScope: `if ContainsDirectEval { for member in Members { MustNotBeRenamed } }` -/
 def pinMembers (f : Frame) (syms : Syms) : Syms :=
